@@ -375,3 +375,9 @@ Definition compare_arrays (a1 a2 : sarray) (ignore_missing : bool) : result bool
              else count_missing (names a1) (names a2) + count_missing (names a2) (names a1) in
   do nf <- compare_loop a1 a2 (fields a1);
   Ok (nf0 + nf =? 0).
+
+(* split_fields on data WITHOUT fields (numpy_util.py:987-990, `data.dtype.fields is None`): the
+   data itself as a 1-tuple whatever getnames says, ValueError when fields= was sent.  A plain
+   array is represented like a view: element type, shape, bytes per element. *)
+Definition split_plain (v : fview) (flds : option names_arg) : result (list fview) :=
+  match flds with None => Ok [v] | Some _ => Err EValue end.
